@@ -1,21 +1,29 @@
 #!/bin/bash
-# usage: tools/try_seed.sh <PID> <seed-dir> <name> [tier]   -- confirm a seeded change and run the property's check against it
-PID=$1; SRC=$2; NAME=$3; TIER=${4:-quick}
-WT=/tmp/wt/$PID
+# usage: tools/try_seed.sh <PID> <seed-dir> <name> [tier] [extra check ids...]
+# Confirms a seeded change on a scratch worktree of /repo's HEAD (suite passes with it, demo fails with it and passes
+# without) and runs the property's check against it.  The worktree lives under /tmp and is removed afterwards.
+PID=$1; SRC=$2; NAME=$3; TIER=${4:-quick}; shift 4 2>/dev/null
+EXTRA="$@"
+WT=/tmp/wtc/$NAME
 DEST=/verif/seeded/$NAME
 set -u
+rm -rf $WT; git -C /repo worktree prune
+git -C /repo worktree add -q --detach $WT HEAD || exit 2
+cleanup() { git -C /repo worktree remove --force $WT 2>/dev/null; }
+trap cleanup EXIT
 cd $WT || exit 2
-git checkout -q -- monkeytype
-base_demo=$(/venv/bin/python $SRC/demo.py >/tmp/seed_demo_base.txt 2>&1; echo $?)
-git apply $SRC/patch.diff || { echo "PATCH DOES NOT APPLY"; exit 2; }
+base_demo=$(/venv/bin/python $SRC/demo.py >/tmp/seed_demo_base_$NAME.txt 2>&1; echo $?)
+git apply $SRC/patch.diff 2>/dev/null || git apply --3way $SRC/patch.diff || { echo "[$NAME] PATCH DOES NOT APPLY to HEAD"; exit 2; }
+git reset -q
 tests=$(/venv/bin/python -m pytest -q -p no:cacheprovider tests demo --deselect tests/test_config.py::TestDefaultCodeFilter::test_excludes_site_packages 2>&1 | tail -1)
-mut_demo=$(/venv/bin/python $SRC/demo.py >/tmp/seed_demo_mut.txt 2>&1; echo $?)
+mut_demo=$(/venv/bin/python $SRC/demo.py >/tmp/seed_demo_mut_$NAME.txt 2>&1; echo $?)
 echo "[$NAME] demo pristine exit=$base_demo, demo patched exit=$mut_demo, tests: $tests"
 cd /verif
-out=$(VERIF_REPO=$WT VERIF_EVIDENCE_DIR=/tmp/verif-mutant-evidence bin/check $PID $TIER 2>&1 | grep -v "WARNING conda")
-rc=$(echo "$out" | grep -c "^VIOLATION property=$PID")
-echo "$out" | grep -A1 "^VIOLATION" | head -4 | cut -c1-400
-echo "$out" | tail -1
-git -C $WT checkout -q -- monkeytype
-mkdir -p $DEST && cp $SRC/patch.diff $SRC/demo.py $SRC/meta.json $DEST/
-echo "[$NAME] detected_by_${PID}_${TIER}=$([ $rc -gt 0 ] && echo yes || echo NO)"
+for P in $PID $EXTRA; do
+  out=$(VERIF_REPO=$WT VERIF_EVIDENCE_DIR=/tmp/verif-mutant-evidence bin/check $P $TIER 2>&1 | grep -v "WARNING conda")
+  rc=$(echo "$out" | grep -c "^VIOLATION property=$P")
+  echo "$out" | grep -A1 "^VIOLATION" | head -4 | cut -c1-400
+  echo "$out" | tail -1
+  echo "[$NAME] detected_by_${P}_${TIER}=$([ $rc -gt 0 ] && echo yes || echo NO)"
+done
+mkdir -p $DEST && cp $SRC/demo.py $SRC/meta.json $DEST/ && git -C $WT diff > $DEST/patch.diff
